@@ -18,7 +18,7 @@ Resync(e) ==
    h |-> IF e.h # 1 THEN Closed
          ELSE IF st.h.open THEN [st.h EXCEPT !.pos = e.hpos]
          ELSE [open |-> TRUE, p |-> e.p, pos |-> e.hpos, rd |-> HasR(e.k) \/ ~HasW(e.k), wr |-> HasW(e.k)]]
-HandleOps == {"write", "seek", "readall"}
+HandleOps == {"write", "seek", "readall", "read", "size"}
 TInit == l = 1 /\ nbad = 0 /\ lost = 0 /\ nskip = 0 /\ st = Init0 /\ last = <<"init", <<>>, <<>>, 0, <<>>, 0, <<>>>> /\ n = 0
 TStep ==
   /\ l <= Len(T)
